@@ -476,7 +476,8 @@ def prove(prop_id):
             cur = []
             blocks.append(cur)
         elif cur is not None:
-            m = re.match(r"^([A-Za-z0-9_'.]+)\s*:", line)
+            # an axiom starts at column 0: `name : type` or, for long types, `name` alone with ` : type` below
+            m = re.match(r"^([A-Za-z_][A-Za-z0-9_'.]*)\s*(:|$)", line)
             if m:
                 cur.append(m.group(1))
             elif line and not line.startswith(" ") and not line.startswith("\t"):
